@@ -103,7 +103,8 @@ def _emit(case):
     wire = []
     for r in case["reqs"]:
         wire.append((b"HEAD" if r["head"] else b"GET") + b" /x " + (b"HTTP/1.1" if r["v11"] else b"HTTP/1.0")
-                    + b"\r\nHost: h\r\n" + (b"Connection: close\r\n" if r["close"] else b"") + b"\r\n")
+                    + b"\r\nHost: h\r\n" + (b"Connection: close\r\n" if r["close"] else
+                                           b"Connection: keep-alive\r\n" if r.get("ka") else b"") + b"\r\n")
     if case.get("split"):
         for w in wire:
             ch.dataReceived(w)
@@ -669,7 +670,7 @@ def _request(rng, tier, last):
         ops[k:k] = [_header_op(rng) for _ in range(rng.choice([1, 2]))]
     if not v11 and not last and rng.random() < 0.8:
         v11 = True
-    return {"v11": v11, "head": head, "close": close, "ops": ops}
+    return {"v11": v11, "head": head, "close": close, "ka": (not close) and rng.random() < 0.3, "ops": ops}
 
 
 def gen(rng, tier):
@@ -752,8 +753,7 @@ def shrink(case):
 
 def _hist(case, obs):
     r = case["reqs"][0]
-    kinds = "".join(sorted({op[0][0] for q in case["reqs"] for op in q["ops"]}))
-    return f"reqs={len(case['reqs'])} first={'1.1' if r['v11'] else '1.0'}{'/HEAD' if r['head'] else ''} ops={kinds}"
+    return f"reqs={len(case['reqs'])} first={'1.1' if r['v11'] else '1.0'}{'/HEAD' if r['head'] else ''}"
 
 
 def describe(case):
